@@ -347,6 +347,38 @@ pub fn gen(ctx: &Ctx) -> Vec<Value> {
         }
     }
     let mut out = Vec::new();
+    // exhaustive small scope: EVERY string up to length 3 (quick) / 4 (thorough) over an alphabet holding a digit of
+    // each kind the parsers distinguish (0, a middle digit, 9), both signs, the period and two junk characters, for
+    // parameter pairs selecting each of the three parsers (fraction only, mixed, negative scale) and scale 0
+    {
+        let alphabet = ['0', '1', '9', '.', '-', '+', 'e', ' '];
+        let maxlen = if ctx.thorough() { 4 } else { 3 };
+        let mut all: Vec<String> = vec![String::new()];
+        let mut frontier: Vec<String> = vec![String::new()];
+        for _ in 0..maxlen {
+            let mut next = Vec::new();
+            for t in &frontier {
+                for c in alphabet {
+                    let mut u = t.clone();
+                    u.push(c);
+                    next.push(u);
+                }
+            }
+            all.extend(next.iter().cloned());
+            frontier = next;
+        }
+        let small: &[(u32, i32)] = if ctx.thorough() {
+            &[(1, 0), (1, 1), (2, 1), (2, 2), (2, 3), (3, -1), (1, -2), (5, 2), (38, 37), (38, 38), (38, -1), (4, 0)]
+        } else {
+            &[(1, 0), (2, 1), (2, 3), (3, -1)]
+        };
+        for (k, (p, s)) in small.iter().enumerate() {
+            for (j, chunk) in all.chunks(600).enumerate() {
+                let items: Vec<Value> = chunk.iter().map(|t| json!({"k": "str", "txt": t})).collect();
+                out.push(json!({"id": format!("decimal-x{k:02}-{j:03}"), "seed": 0, "p": p, "s": s, "items": items}));
+            }
+        }
+    }
     for (c, (p, s)) in pairs.into_iter().enumerate() {
         let mut r = rng.fork();
         let sub = r.0;
@@ -372,8 +404,12 @@ fn stored(arrays: Vec<Array>) -> Result<Value, serde_arrow::Error> {
     }
 }
 
+/// the texts on which BigDecimal is consulted as an independent oracle: digits, one leading sign, periods.
+/// BigDecimal's own parser is lenient where a sign FOLLOWS the period (`".-0"`, `"1.+5"` parse: it concatenates the two
+/// digit strings before reading the sign), so a sign anywhere but at the front puts a text outside the oracle's domain
+/// (found by the exhaustive small-scope stream, 2026-09-29; the Lean grammar and the crate both refuse such texts).
 fn only_plain_chars(t: &str) -> bool {
-    t.bytes().all(|b| b.is_ascii_digit() || b == b'+' || b == b'-' || b == b'.')
+    t.bytes().enumerate().all(|(i, b)| b.is_ascii_digit() || b == b'.' || ((b == b'+' || b == b'-') && i == 0))
 }
 
 /// trunc(x * 10^s) as an integer string (toward zero)
